@@ -447,18 +447,40 @@ def run(ctx):
                 if not cond:
                     raise Failed2(msg)
             who, mine, other = rng.choice([(RA, da, db), (RB, db, da)])
-            inst = who(assert_fn2)
+            # sometimes the configured directory is only created after the test object exists (in a setUp)
+            late = rng.random() < 0.5
+            if late:
+                os.rmdir(mine)
+            import tempfile as _tf
+            systmp = os.path.join(base2, 'systmp%d' % it)
+            os.makedirs(systmp)
+            saved_tmp = _tf.tempdir
+            _tf.tempdir = systmp
+            try:
+                inst = who(assert_fn2)
+            finally:
+                _tf.tempdir = saved_tmp
+            if late:
+                os.makedirs(mine)
+                ctx.bump('tmp_dir_created_after_construction')
             refp = os.path.join(base2, 'ref%d.txt' % it)
             with open(refp, 'w') as f:
                 f.write('alpha\nbeta\n')
             case = {'scenario': 'two configured classes', 'configured_first': order[0][0].__name__, 'failing': who.__name__}
             ctx.count(repr(case) + str(it), True)
             ctx.bump('two_classes')
+            _tf.tempdir = systmp
             try:
                 inst.assertStringCorrect('alpha\nBETA\n', refp)
                 ctx.fail(case, 'a differing string passed')
             except Failed2:
                 pass
+            finally:
+                _tf.tempdir = saved_tmp
+            if os.listdir(systmp):
+                ctx.fail(dict(case, tmp_dir_created_after_construction=late),
+                         'the failing assertion wrote %r into the system temporary directory, not the configured one'
+                         % sorted(os.listdir(systmp))[:4])
             if os.listdir(other):
                 ctx.fail(case, 'the failing assertion of %s wrote %r into the directory configured for the other class'
                          % (who.__name__, sorted(os.listdir(other))[:4]))
